@@ -3,7 +3,9 @@
   Composition of the C05 development: `decImpl ∘ encImpl = id` on every value of every declaration,
   through the DDS/`Data:` split and through any lossless content coding.
   What is *not* in these theorems (oracle only, see design_notes/C01.md): webob/requests plumbing,
-  gzip itself, the DDS text round trip (C07), file I/O of `open_dods_file`.
+  gzip itself, the DDS text round trip (C07), the operating system's file I/O under `open_dods_file` (what the
+  function does with the bytes of the file — text-mode line loop, offset, binary re-read — IS modelled:
+  `Xdr.openDodsFile`, `C01_open_dods_file`).
 -/
 import PydapModel.XdrTypes
 import PydapModel.XdrSpec
@@ -14,6 +16,10 @@ import Proofs.XdrSize
 import Proofs.EndToEndText
 import Proofs.XdrStream
 import Proofs.XdrSrc
+import PydapModel.XdrFile
+import Proofs.XdrFile
+import PydapModel.XdrFileText
+import Proofs.XdrFileText
 import PydapModel.Handler
 import Proofs.Handler
 import Proofs.HandlerWF
@@ -41,8 +47,8 @@ theorem C01_roundtrip_framed (t : Tmpl) (d : Data) (rest : Bytes) (h : WF t d = 
   rw [encImpl_eq t d h]
   exact decImpl_enc t d rest h
 
-/-- what `BaseProxyDap2.__getitem__` / `open_dods_file` do with a response body: split at the
-    separator, decode the data part -/
+/-- what `BaseProxyDap2.__getitem__` does with a response body: split at the separator, decode the data part
+    (`open_dods_file` finds the data part differently: `Xdr.openDodsFile`, section "the saved `.dods` file" below) -/
 def clientRead (t : Tmpl) (raw : Bytes) : Option (Bytes × Except Err (Data × Bytes)) :=
   (splitBody raw).map fun p => (p.1, decImpl t p.2)
 
@@ -271,6 +277,63 @@ theorem C01_lazy_type_peek_undetermined :
     simp only [encImpl]
     split <;> simp [encRowsFlat, encRowsNested]
 
+/-! ### the saved `.dods` file reopened: `open_dods_file` (client.py)
+
+`Xdr.openDodsFile` (PydapModel/XdrFile.lean) follows the Python: the file read as TEXT (`encoding="ascii",
+newline="\n", errors="ignore"`) line by line up to the first line with `line.strip() == "Data:"`, the lines before it
+accumulated in `dds`; then the file read as BYTES from offset `len(dds) + len("Data:\n")`.  Unlike `clientRead` (which
+was standing in for it above) it neither searches `\nData:\n` nor drops the DDS's final newline. -/
+
+/-- **`open_dods_file`**: from the body the server emits, saved and reopened, the client recovers the DDS text (whole,
+    with its final newline) and exactly the source values, nothing left over — whatever bytes the values are made of
+    (`\nData:\n`, bytes ≥ 128 that the text decoder would drop, any 0x0A: the loop has stopped before them).
+    `hascii`: the DDS text is ASCII (C07's printer emits nothing else; a byte ≥ 128 would be dropped from `dds` and
+    the offset would fall short); `hno`: no line of the DDS strips to `Data:` (every DDS line ends in `{` or `;`) -/
+theorem C01_open_dods_file (dds0 : Bytes) (t : Tmpl) (d : Data) (h : WF t d = true)
+    (hascii : ∀ b ∈ dds0, b.toNat < 128)
+    (hno : ∀ l ∈ textLines (dds0 ++ [10]), pyStrip l ≠ [68, 97, 116, 97, 58]) :
+    openDodsFile t (body (dds0 ++ [10]) t d) = (dds0 ++ [10], .ok (d, [])) :=
+  openDodsFile_body dds0 t d h hascii hno
+
+/-- … and through any lossless content coding of the response before it was saved -/
+theorem C01_open_dods_file_transport (z unz : Bytes → Bytes) (hz : ∀ b, unz (z b) = b)
+    (dds0 : Bytes) (t : Tmpl) (d : Data) (h : WF t d = true)
+    (hascii : ∀ b ∈ dds0, b.toNat < 128)
+    (hno : ∀ l ∈ textLines (dds0 ++ [10]), pyStrip l ≠ [68, 97, 116, 97, 58]) :
+    openDodsFile t (unz (z (body (dds0 ++ [10]) t d))) = (dds0 ++ [10], .ok (d, [])) :=
+  openDodsFile_body_coded z unz hz dds0 t d h hascii hno
+
+/-- the file reader and the in-memory reader agree on the served body: same values, and the same DDS text up to the
+    final newline that `raw.split(b"\nData:\n", 1)` consumes -/
+theorem C01_open_dods_file_agrees (dds0 : Bytes) (t : Tmpl) (d : Data) (h : WF t d = true)
+    (hascii : ∀ b ∈ dds0, b.toNat < 128)
+    (hno : ∀ l ∈ textLines (dds0 ++ [10]), pyStrip l ≠ [68, 97, 116, 97, 58])
+    (hno' : ∀ i, i < dds0.length →
+      ¬ splitPattern.isPrefixOf ((dds0 ++ splitPattern ++ encImpl t d).drop i) = true) :
+    clientRead t (body (dds0 ++ [10]) t d)
+      = some (((openDodsFile t (body (dds0 ++ [10]) t d)).1).dropLast, (openDodsFile t (body (dds0 ++ [10]) t d)).2) := by
+  rw [C01_end_to_end dds0 t d h hno', C01_open_dods_file dds0 t d h hascii hno]
+  simp
+
+/-- `hno` needs no knowledge of the line structure: a DDS text without a colon has no `Data:` line (DAP2 names in
+    C07's domain contain none and the DDS printer adds none) -/
+theorem C01_open_dods_file_no_colon (dds0 : Bytes) (t : Tmpl) (d : Data) (h : WF t d = true)
+    (hascii : ∀ b ∈ dds0, b.toNat < 128) (hc : (58 : UInt8) ∉ dds0) :
+    openDodsFile t (body (dds0 ++ [10]) t d) = (dds0 ++ [10], .ok (d, [])) :=
+  openDodsFile_body dds0 t d h hascii (no_dataLine_of_no_colon dds0 hc)
+
+/-- **the saved response text, any dataset** (`E2E.fileDecode`, PydapModel/XdrFileText.lean: `open_dods_file` with its
+    own DDS parse — the file counterpart of `C01_e2e_response_text`): for every well-formed dataset `d` (C07's domain)
+    whose DDS text is ASCII and has no line that strips to `Data:`, and every declaration/value pair `(t, data)` the
+    parsed DDS converts to, the file reader — text loop, DDS parse of the WHOLE printed text (final newline included),
+    declaration conversion, seek, XDR decode — recovers the declared tree and exactly the values, nothing left over -/
+theorem C01_e2e_saved_response_text (d : Dds.Dataset) (s0 : Dds.Text) (t : Tmpl) (data : Data) (hwf : Dds.WFds d)
+    (hp : Dds.printDs d = .ok (s0 ++ ['\n'])) (hascii : ∀ c ∈ s0, c.toNat < 128)
+    (hno : ∀ l ∈ textLines (E2E.encodeAscii s0 ++ [10]), pyStrip l ≠ [68, 97, 116, 97, 58])
+    (ht : E2E.tmplOfDataset (Dds.normDs d) = some t) (hd : WF t data = true) :
+    E2E.fileDecode (body (E2E.encodeAscii (s0 ++ ['\n'])) t data) = .ok (Dds.normDs d, data, []) :=
+  E2E.fileDecode_body d s0 t data hwf hp hascii hno ht hd
+
 /-! ### non-vacuity -/
 
 def exT : Tmpl := .struct [.base .uint16 [2, 2], .struct [.base .byte [], .base .string []],
@@ -340,5 +403,42 @@ example : ∃ bs, encSrc (.struct [.arr exRepA, .val (.base .string []) (.scalar
       = some ([32], .ok (.tuple [.array [.num 1, .num (-2), .num 3], .scalar (.str [])], [])) :=
   C01_representation_independent_dataset _ _ [32] _ _ (by rfl) (by rfl) (by decide) (by decide)
 
+/-- `open_dods_file` on a tiny body -/
+example : openDodsFile (.struct [.base .int32 []]) (body ([32] ++ [10]) (.struct [.base .int32 []]) (.tuple [.scalar (.num 5)]))
+    = ([32, 10], .ok (.tuple [.scalar (.num 5)], [])) := by rfl
+example : openDodsFile (.struct [.base .int32 []]) (body ([32] ++ [10]) (.struct [.base .int32 []]) (.tuple [.scalar (.num 5)]))
+    = ([32] ++ [10], .ok (.tuple [.scalar (.num 5)], [])) :=
+  C01_open_dods_file [32] _ _ (by decide) (by decide) (by decide)
+/-- the XDR part holds `\nData:\n` (a Byte array) and bytes ≥ 128 / 0x0A (Byte, Int32): the text loop has stopped
+    before them, the offset is computed from the DDS alone -/
+def exF : Tmpl := .struct [.base .byte [8], .base .int32 []]
+def exFD : Data := .tuple [.array [.num 10, .num 68, .num 97, .num 116, .num 97, .num 58, .num 10, .num 200],
+  .scalar (.num (-2147483638))]
+example : encImpl exF exFD = [0, 0, 0, 8, 0, 0, 0, 8, 10, 68, 97, 116, 97, 58, 10, 200, 0x80, 0, 0, 10] := by decide
+example : (splitPattern ++ [200]).isPrefixOf ((encImpl exF exFD).drop 8) = true := by decide
+example : openDodsFile exF (body ([32, 59] ++ [10]) exF exFD) = ([32, 59, 10], .ok (exFD, [])) := by rfl
+example : openDodsFile exF (body ([32, 59] ++ [10]) exF exFD) = ([32, 59] ++ [10], .ok (exFD, [])) :=
+  C01_open_dods_file [32, 59] exF exFD (by decide) (by decide) (by decide)
+/-- the hypotheses are needed.  A DDS byte ≥ 128 is dropped from the text, the offset falls short by one and the
+    decoder starts at the marker's last byte (`hascii`); a DDS line that strips to `Data:` ends the loop early (`hno`) -/
+example : openDodsFile (.struct [.base .int32 []]) (body ([200] ++ [10]) (.struct [.base .int32 []]) (.tuple [.scalar (.num 5)]))
+    = ([10], .ok (.tuple [.scalar (.num 167772160)], [5])) := by rfl
+example : openDodsFile (.struct [.base .int32 []])
+    (body ([32, 68, 97, 116, 97, 58, 9] ++ [10]) (.struct [.base .int32 []]) (.tuple [.scalar (.num 5)]))
+    = ([], .ok (.tuple [.scalar (.num 151667809)], [116, 97, 58, 10, 0, 0, 0, 5])) := by rfl
+example : pyStrip [28, 9, 68, 97, 116, 97, 58, 31, 13, 10] = [68, 97, 116, 97, 58] := by decide
+example : textLines [97, 10, 10, 98] = [[97, 10], [10], [98]] ∧ textLines [97, 10] = [[97, 10]] := by decide
+
+example : openDodsFile exF (body ([32, 59] ++ [10]) exF exFD) = ([32, 59] ++ [10], .ok (exFD, [])) :=
+  C01_open_dods_file_no_colon [32, 59] exF exFD (by decide) (by decide) (by decide)
+/-- a printed DDS, saved with its data and reopened: the tree `dds_to_dataset` builds and the value -/
+def exSavedDs : Dds.Dataset := E2E.answerDs "ds".toList "a".toList [] .int16 []
+def exSavedText : Dds.Text := "Dataset {\n    Int16 a;\n} ds;".toList
+example : Dds.printDs exSavedDs = .ok (exSavedText ++ ['\n']) := by decide
+example : E2E.fileDecode (body (E2E.encodeAscii (exSavedText ++ ['\n'])) (E2E.answerTmpl .int16 []) (.tuple [.scalar (.num (-3))]))
+    = .ok (Dds.normDs exSavedDs, .tuple [.scalar (.num (-3))], []) :=
+  C01_e2e_saved_response_text exSavedDs exSavedText _ _
+    (E2E.answerDs_wf _ _ _ _ _ ⟨by decide, by decide⟩ ⟨by decide, by decide⟩ (by simp)) (by decide) (by decide) (by decide)
+    (E2E.answerDs_tmpl _ _ _ _ _ (Or.inl rfl)) (by decide)
 
 end Pydap.C01
